@@ -826,6 +826,26 @@ class Frag:
         self.labels.append(label)
         return s, a
 
+    def invariant_breaches(self) -> list[str]:
+        """Thompson invariants the black-box reading of sub-automata relies on and
+        every operator must re-establish for its own result."""
+        out = []
+        if self.result is None:
+            return out
+        s0, acc = self.rep(self.result[0]), self.rep(self.result[1])
+        for x in list(self.eps):
+            if x in self.alias:
+                continue
+            if any(self.rep(y) == s0 for y in self.eps[x]):
+                out.append("an epsilon edge enters the result's start state")
+            if any(self.rep(t) == s0 for (_, t) in self.lab[x]):
+                out.append("a symbol edge enters the result's start state")
+        if self.eps[acc] or self.lab[acc]:
+            out.append("the result's accepting state has outgoing edges")
+        if s0 == acc:
+            out.append("start and accepting state coincide")
+        return sorted(set(out))
+
     # language as a DFA over labels: (start, trans{(state,label)->state}, accepting)
     def dfa(self):
         if self.result is None:
@@ -963,9 +983,16 @@ class ApplyInterp:
                 if not isinstance(node, int):
                     raise Unsupported(f"{fi.site(st)}: store on non-state")
                 node = self.frag.rep(node)
-                val = self.ev(st.value)
+                val = self._as_list(self.ev(st.value))
                 if not isinstance(val, list):
                     raise Unsupported(f"{fi.site(st)}: {t.attr} assigned a non-list")
+                flat = []
+                for x in val:
+                    if isinstance(x, tuple) and x and x[0] == "starred":
+                        flat.extend(x[1])
+                    else:
+                        flat.append(x)
+                val = flat
                 if t.attr == "epsilon_transitions":
                     self.frag.eps[node] = list(val)
                 else:
@@ -1027,9 +1054,18 @@ class ApplyInterp:
             return [self.ev(e) for e in n.elts]
         if isinstance(n, ast.Tuple):
             return tuple(self.ev(e) for e in n.elts)
+        if isinstance(n, ast.BinOp) and isinstance(n.op, ast.Add):
+            a, b = self._as_list(self.ev(n.left)), self._as_list(self.ev(n.right))
+            if isinstance(a, list) and isinstance(b, list):
+                return a + b
+            raise Unsupported(f"{fi.site(n)}: + on non-lists in apply()")
+        if isinstance(n, ast.Starred):
+            return ("starred", self._as_list(self.ev(n.value)))
         if isinstance(n, ast.Call):
             f = n.func
             name = attr_chain(f) or ""
+            if name == "list" and len(n.args) == 1:
+                return self._as_list(self.ev(n.args[0]))
             if name == "State" and not n.args:
                 return self.frag.node()
             if name == "expression_to_nfa" and len(n.args) == 1:
@@ -1074,6 +1110,11 @@ class ApplyInterp:
                     return None
             raise Unsupported(f"{fi.site(n)}: call {unparse(n)[:60]}")
         raise Unsupported(f"{fi.site(n)}: expression {type(n).__name__} in apply()")
+
+    def _as_list(self, v):
+        if isinstance(v, tuple) and v and v[0] == "listref":
+            return list((self.frag.eps if v[1] == "epsilon_transitions" else self.frag.lab)[v[2]])
+        return v
 
     def _edge(self, v, kind):
         if kind == "epsilon_transitions":
